@@ -27,6 +27,8 @@ RULE = (
 ASSUMPTIONS = [
     "models with an eigenvalue modulus in [0.93, 1.07] are not judged (classification by tolerance is not sharp there); unit-root models are left to C05/C15",
     "residual tolerance 1e-8*(1+max|path|) in the units of the linear(ised) equation (logs for log-variables)",
+    "growth sub-check: one exact random walk with drift; the steady (growth) path is taken from solve_steady/Databox.steady (judged by C05); cases where that fails or degenerates are counted, not judged",
+    "warm-up simulations with other anticipated-shock horizons are run on the same model object before the judged simulation, and the judged simulation is repeated at the end and must be bit-identical",
     "time-consistency split is only asserted when no anticipated shock is dated at or after the split (a shorter first leg cannot see it)",
     "eigenvalues are compared as moduli of the finite non-zero ones (|lambda| in (2e-3, 5e2); defective zero/infinite roots perturb to eps**(+-1/k)); representation-dependent zero/infinite roots only enter the unstable count",
     "models that meet the root count but whose stable deflating subspace has an ill-conditioned predetermined block (cond > 1e6, Blanchard-Kahn rank condition) are not judged",
@@ -53,7 +55,9 @@ def _case(draw):
     mshocks = draw(st.lists(st.tuples(st.integers(0, max(nm - 1, 0)), st.integers(0, N - 1), val), max_size=2)) if nm else []
     init = draw(st.lists(st.tuples(st.integers(0, n - 1), st.integers(1, 3),
                                    st.floats(-1, 1, allow_nan=False).map(lambda x: round(x, 4))), max_size=6))
+    warm = draw(st.lists(st.tuples(st.integers(0, n - 1), st.integers(0, 11), val, st.integers(1, 12), st.booleans()), max_size=2))
     return {
+        "warmups": [list(w) for w in warm],
         "spec": spec, "freq": draw(st.sampled_from(["Q", "Q", "M", "Y", "I"])), "N": N,
         "deviation": draw(st.booleans()),
         "init": [list(x) for x in init],
@@ -172,6 +176,17 @@ def _check(case):
         sd.apply_shocks(db, spec, start, ush, ash, case["mshocks"])
         return db
 
+    # ---- history on the same model object: earlier simulations with other anticipated horizons must not
+    #      influence later ones (the solved model caches its forward expansion)
+    shn_all = lm.shock_names(spec)
+    for wi, wtau, wval, wN, wdev in case.get("warmups", []):
+        if not shn_all[wi % spec["n"]]:
+            continue
+        wtau = min(wtau, wN - 1)
+        dbw = sd.steady_db(m, spec, start, -Lmax, wN + Fmax, wdev)
+        dbw["ant_" + shn_all[wi % spec["n"]]][start + wtau] = wval
+        api("simulate_warmup", m.simulate, dbw, start >> (start + wN - 1), method="first_order", deviation=wdev)
+
     db = make_db(dev)
     span = start >> (start + T - 1)
     P = api("simulate", m.simulate, db, span, method="first_order", deviation=dev)
@@ -259,6 +274,13 @@ def _check(case):
         col.check(worst <= 1e-8 * scale, "levels_vs_deviation",
                   lambda: f"{nm}: level path differs from steady combined with deviation path by {worst:.3e}\n{lm.source(spec)}")
 
+    # ---- 7. the same call repeated at the end of the history gives the same path ---------
+    P_again = api("simulate_again", m.simulate, make_db(dev), span, method="first_order", deviation=dev)
+    pA = sd.Paths(P_again, spec, start, -Lmax, T - 1)
+    for nm in spec["names"] + lm.meas_names(spec):
+        col.check(bool(np.array_equal(pA.arr(nm), pP.arr(nm), equal_nan=True)), "history:repeated_call_differs",
+                  lambda: f"{nm}: the same simulation repeated on the same model object differs by {float(np.nanmax(np.abs(pA.arr(nm) - pP.arr(nm)))):.3e}")
+
     # ---- 3. time consistency -------------------------------------------------
     s = case["split"]
     labels = []
@@ -280,6 +302,105 @@ def _check(case):
     return {"labels": labels + ["class_determinate"], "nontrivial": True}
 
 
+# ---------------------------------------------------------------------------
+# Balanced-growth models: linearisation around a non-flat steady state
+# ---------------------------------------------------------------------------
+
+@st.composite
+def _growth_case(draw):
+    spec = draw(lm.growth_spec_strategy(max_n=3, meas=(0, 1), log=draw(st.booleans())))
+    n = spec["n"]
+    N = draw(st.integers(2, 10))
+    val = st.sampled_from([0.5, -0.5, 0.2, 1.0, -0.1])
+    return {"spec": spec, "N": N, "linear_flag": draw(st.booleans()),
+            "ushock": [draw(st.integers(0, n - 1)), draw(val)],
+            "ashocks": [list(x) for x in draw(st.lists(st.tuples(st.integers(0, n - 1), st.integers(0, N - 1), val), max_size=2))]}
+
+
+def _classify_growth(case):
+    spec = case["spec"]
+    return True, ["log_rendering" if spec["log"] else "additive_rendering", "linear_flag" if case["linear_flag"] and not spec["log"] else "nonlinear_flag"]
+
+
+def _check_growth(case):
+    ir = _ir()
+    col = Collector()
+    spec = case["spec"]
+    if not lm.unit_root_domain(spec, 1):
+        return {"labels": ["model_not_in_domain"], "nontrivial": False}
+    linear = case["linear_flag"] and not spec["log"]
+    m = api("from_string", ir.Simultaneous.from_string, lm.source(spec), linear=linear, flat=False)
+    if not linear:
+        # starting guess: level 1 (0 for additive), and the drift of the random walk as the growth of every variable
+        drift = spec["eqs"][spec["rw"]]["const"]
+        g0 = (1.0, math.exp(drift)) if spec["log"] else (0.0, drift)
+        m.assign(**{nm: g0 for nm in spec["names"] + lm.meas_names(spec)})
+    try:
+        m.solve_steady()
+        m.solve()
+    except Exception:  # noqa: BLE001 - the steady state of growth models is judged by C05
+        return {"labels": ["steady_or_solve_failed"], "nontrivial": False}
+    lv = m.get_steady_levels()
+    if spec["log"] and any(not (1e-6 < float(lv[nm]) < 1e6) for nm in spec["names"]):
+        return {"labels": ["degenerate_steady"], "nontrivial": False}
+    start = ir.qq(2020, 1)
+    N = case["N"]
+    T = N + TAIL
+    Lmax, Fmax = lm.max_lag_lead(spec)
+    Lmax = max(Lmax, 1)
+    names = spec["names"]
+    span = start >> (start + T - 1)
+    base = ir.Databox.steady(m, (start - Lmax) >> (start + T + Fmax), deviation=False)
+    pS = sd.Paths(base, spec, start, -Lmax, T - 1)
+
+    def tr(a):
+        return np.log(a) if spec["log"] else a
+
+    scale = 1.0 + max(float(np.max(np.abs(tr(pS.arr(nm))))) for nm in names)
+    # (1) without shocks the level simulation stays on the steady (growth) path
+    P0 = api("simulate_no_shocks", m.simulate, base.copy(), span, method="first_order")
+    p0 = sd.Paths(P0, spec, start, -Lmax, T - 1)
+    for nm in names + lm.meas_names(spec):
+        d = float(np.max(np.abs(tr(p0.arr(nm)) - tr(pS.arr(nm)))))
+        col.check(d <= 1e-8 * scale, "growth:leaves_steady_path", lambda: f"{nm}: zero-shock level simulation leaves the steady path by {d:.3e}\n{lm.source(spec)}")
+    # (2) with shocks every equation holds on the perfect-foresight path
+    shn = lm.shock_names(spec)
+    db = base.copy()
+    ui, uv = case["ushock"]
+    if shn[ui]:
+        db[shn[ui]][start] = uv
+    for i, tau, v in case["ashocks"]:
+        if shn[i]:
+            db["ant_" + shn[i]][start + tau] = v
+    P = api("simulate", m.simulate, db, span, method="first_order")
+    pP = sd.Paths(P, spec, start, -Lmax, T - 1)
+    get = sd.getter(pP, spec, unanticipated_only_at=0)
+    worst, where = 0.0, None
+    for t in range(0, T - Fmax):
+        for i, ri in enumerate(lm.residuals(spec, get, t)):
+            if not (abs(ri) <= worst):
+                worst, where = abs(ri), (i, t)
+    col.check(worst <= 1e-8 * scale, "growth:equations_residual",
+              lambda: f"equation {where[0]} at t={where[1]}: residual {worst:.3e} on a level simulation around the growth path\n{lm.source(spec)}")
+    # (3) levels = steady path combined with the deviation simulation of the same shocks
+    dbd = ir.Databox.steady(m, (start - Lmax) >> (start + T + Fmax), deviation=True)
+    if shn[ui]:
+        dbd[shn[ui]][start] = uv
+    for i, tau, v in case["ashocks"]:
+        if shn[i]:
+            dbd["ant_" + shn[i]][start + tau] = v
+    D = api("simulate_deviation", m.simulate, dbd, span, method="first_order", deviation=True)
+    pD = sd.Paths(D, spec, start, -Lmax, T - 1)
+    for nm in names + lm.meas_names(spec):
+        a, s_, d_ = pP.arr(nm)[Lmax:], pS.arr(nm)[Lmax:], pD.arr(nm)[Lmax:]
+        diff = np.abs(np.log(a) - (np.log(s_) + np.log(d_))) if spec["log"] else np.abs(a - (s_ + d_))
+        w = float(np.max(diff))
+        col.check(w <= 1e-8 * scale, "growth:levels_vs_deviation", lambda: f"{nm}: level path differs from steady path combined with deviations by {w:.3e}\n{lm.source(spec)}")
+    col.done()
+    return {"labels": ["judged"], "nontrivial": True}
+
+
 SUBCHECKS = [
     HypSub("first_order", _case, _check, _classify, budget={"quick": 1200, "thorough": 24000}),
+    HypSub("growth", _growth_case, _check_growth, _classify_growth, budget={"quick": 400, "thorough": 8000}),
 ]
